@@ -30,6 +30,14 @@ use util::{Report, Tier};
 pub struct Ctx {
     pub tier: Tier,
     pub seed: u64,
+    /// restrict the run to one named group of sub-checks (companion runs)
+    pub only: Option<String>,
+}
+
+impl Ctx {
+    pub fn wants(&self, group: &str) -> bool {
+        self.only.as_deref().map_or(true, |o| o == group)
+    }
 }
 
 fn usage() -> ! {
@@ -53,6 +61,9 @@ fn main() {
         .map(|v| v as u64)
         .unwrap_or(1);
     let mut replay: Option<String> = None;
+    let mut partial_out: Option<String> = None;
+    let mut merge_files: Vec<String> = vec![];
+    let mut only: Option<String> = None;
     let mut i = 2;
     while i < args.len() {
         match args[i].as_str() {
@@ -76,6 +87,18 @@ fn main() {
                 i += 1;
                 replay = Some(args.get(i).cloned().unwrap_or_else(|| usage()));
             }
+            "--partial-out" => {
+                i += 1;
+                partial_out = Some(args.get(i).cloned().unwrap_or_else(|| usage()));
+            }
+            "--merge" => {
+                i += 1;
+                merge_files.push(args.get(i).cloned().unwrap_or_else(|| usage()));
+            }
+            "--only" => {
+                i += 1;
+                only = Some(args.get(i).cloned().unwrap_or_else(|| usage()));
+            }
             _ => usage(),
         }
         i += 1;
@@ -92,7 +115,7 @@ fn main() {
         .build_global()
         .ok();
 
-    let ctx = Ctx { tier, seed };
+    let ctx = Ctx { tier, seed, only };
 
     if let Some(path) = replay {
         let text = match std::fs::read_to_string(&path) {
@@ -130,6 +153,8 @@ fn main() {
     }
 
     let mut rep = Report::new(leak(&prop), tier, seed);
+    rep.partial_out = partial_out;
+    rep.merge_files = merge_files;
     match prop.as_str() {
         "C01" => c01::run(&ctx, &mut rep),
         "C02" => c02::run(&ctx, &mut rep),
